@@ -18,7 +18,7 @@ RULE = ("Hypothesis draws a pool of p>=k distinct dyadic points, then the data s
 ASSUMPTIONS = ["sample weights None or all ones (non-uniform weights are a documented NotImplementedError; the statement does not say "
                "how a uniform weight c != 1 scales inertia_)", "dense data only"]
 TOLERANCES = {"L1 float64": "exact (dyadic data: |differences|, medians and their sums are exact)", "L1 float32": "1e-5 relative",
-              "L2": "exact (same code path, same seed, one thread)"}
+              "L2": "exact (same code path, same seed, one thread; algorithm lloyd|elkan, arbitrary positive weights)"}
 
 _mod = loader.module("mlmodel.kmeans_l1")
 
@@ -95,6 +95,9 @@ def check_l1(case):
 def check_l2(case):
     X, kw, w, Q = _build(case)
     k = case["k"]
+    kw["algorithm"] = case.get("algorithm", "lloyd")
+    if case.get("l2_weights") is not None:
+        w = np.array(case["l2_weights"][:len(X)], dtype=np.float64)
     facts = dict(k=k, n=len(X), init=case["init"] if isinstance(case["init"], str) else "array", dtype=case["dtype"])
     np.random.seed(case["seed"])
     m = _mod.KMeansL1L2(norm="L2", **kw).fit(X, sample_weight=w)
@@ -108,7 +111,10 @@ def check_l2(case):
             continue
         require(np.array_equal(m.predict(Z), ref.predict(Z)), "l2:predict", name, facts)
         require(np.array_equal(m.transform(Z), ref.transform(Z)), "l2:transform", name, facts)
-    return Outcome(["L2", case["dtype"], "init=" + facts["init"], "k=1" if k == 1 else "k>=2"], k >= 2)
+    sref = ref.score(Q if len(Q) else X)
+    require(m.score(Q if len(Q) else X) == sref, "l2:score", "", facts)
+    return Outcome(["L2", case["dtype"], "init=" + facts["init"], "k=1" if k == 1 else "k>=2", "algorithm=" + kw["algorithm"],
+                    "weights" if case.get("l2_weights") is not None else "no-weights"], k >= 2)
 
 
 _cell = st.integers(-64, 64).map(lambda v: v / 8.0)
@@ -141,7 +147,8 @@ def _cases(draw, tier="quick"):
     return dict(X=X, k=k, init=init, n_init=draw(st.integers(1, 3)), max_iter=draw(st.integers(1, 20)),
                 random_state=draw(st.one_of(st.none(), st.integers(0, 1000))), seed=draw(st.integers(0, 2**31 - 2)),
                 tol=draw(st.sampled_from([1e-4, 0.0, 1e-2])), dtype=draw(st.sampled_from(["float64", "float64", "float32"])),
-                ones_weight=draw(st.booleans()), Q=Q)
+                ones_weight=draw(st.booleans()), Q=Q, algorithm=draw(st.sampled_from(["lloyd", "lloyd", "elkan"])),
+                l2_weights=draw(st.one_of(st.none(), st.lists(st.integers(1, 16).map(lambda v: v / 4.0), min_size=len(X), max_size=len(X)))))
 
 
 CLAUSES = [
